@@ -29,6 +29,8 @@ from .common import run_cases, model_output, coq_nat, coq_q, coq_list, Q, to_fra
 
 GEN_DEPS = ["SolvePlan.v", "tr_solveplan"]
 TRUSTED = [
+    "MOSEK back-end: Model/Mosek.v (emission, API semantics of the Task calls) and the recording stand-in "
+    "harness/standin/mosek (MOSEK itself is absent); stream mosek-call-log runs LAST, the stand-in is only then on sys.path",
     "translator/tr_solveplan.py: grammar of the collection phase of PEP._solve_with_wrapper (docstring of the module); "
     "`if verbose:` blocks are dropped only after being checked print-only with side-effect-free arguments",
     "Model/Matrices.v (expression_to_matrices, expression_to_sparse_matrices) and the interpreter of plans in "
@@ -1132,10 +1134,28 @@ def stream_shipped(tier, seed, corpus):
 
 
 # =============================================================================================== driver API
+def stream_mosek(tier, seed):
+    """the MOSEK back-end of the property: real PEP.solve(wrapper='mosek') on the recording stand-in, every Task call
+    with every argument against Model/Mosek.v's emission (machinery of harness/p_c11.py, own seed; models with LMIs
+    before, between and after scalar constraints, class LMIs, function-level LMIs) -- seed C05-10"""
+    from . import p_c11
+    p_c11.mosek()
+    rng = random.Random(seed * 48611 + 505)
+    specs = p_c11.gen_specs(rng, 40 if tier == "quick" else 300)
+    r = p_c11.stream_logs("mosek-call-log", tier, seed, specs, [None] * len(specs),
+                          "seeded random models sent through the real PEP.solve(wrapper='mosek') on the stand-in; compared "
+                          "with Model/Mosek.v: every Task call with every argument (row indices, bound keys, sparse "
+                          "triples, bar-variable indices); non-trivial = at least 3 rows; distinct by the model's input")
+    # findings of the MOSEK path that belong to C11 / C16 (status handling) are not C05's subject
+    r["problems"] = [p for p in r["problems"] if p.get("kind") == "model-differs"]
+    r["n_problems"] = len(r["problems"])
+    return r
+
+
 def correspondence(tier, seed, corpus=()):
     corpus = list(corpus or [])
     return [stream_matrices(tier, seed, corpus)] + stream_programs(tier, seed, corpus) + \
-        [stream_shipped(tier, seed, corpus)]
+        [stream_shipped(tier, seed, corpus), stream_mosek(tier, seed)]
 
 
 def search(tier, seed):
